@@ -1,4 +1,273 @@
 package rules
 
-// placeholder until the zone engine lands
-func c14Bound(e *Env) {}
+import (
+	"fmt"
+	"go/token"
+	"go/types"
+
+	"golang.org/x/tools/go/ssa"
+
+	"hzcheck/zone"
+)
+
+func fieldIndex(st *types.Struct, name string) int {
+	for i := 0; i < st.NumFields(); i++ {
+		if st.Field(i).Name() == name {
+			return i
+		}
+	}
+	return -1
+}
+
+// rootSet: the SSA values that denote parameter p: p itself and loads of a cell (a local
+// spilled to memory because a closure or defer captures it) whose only store is p.
+type rootSet map[ssa.Value]bool
+
+func paramAliases(fn *ssa.Function, p *ssa.Parameter) rootSet {
+	out := rootSet{p: true}
+	cells := map[*ssa.Alloc]bool{}
+	bad := map[*ssa.Alloc]bool{}
+	var scan func(f *ssa.Function)
+	scan = func(f *ssa.Function) {
+		for _, b := range f.Blocks {
+			for _, ins := range b.Instrs {
+				if st, ok := ins.(*ssa.Store); ok {
+					if al, ok := st.Addr.(*ssa.Alloc); ok {
+						if st.Val == ssa.Value(p) {
+							cells[al] = true
+						} else {
+							bad[al] = true
+						}
+					}
+					// closures write captured cells through their free variables
+					if fv, ok := st.Addr.(*ssa.FreeVar); ok {
+						_ = fv
+						for al := range cells {
+							bad[al] = bad[al] || false
+						}
+					}
+				}
+			}
+		}
+	}
+	scan(fn)
+	// stores through free variables inside closures: find the binding
+	for _, an := range fn.AnonFuncs {
+		for _, b := range an.Blocks {
+			for _, ins := range b.Instrs {
+				if st, ok := ins.(*ssa.Store); ok {
+					if fv, ok := st.Addr.(*ssa.FreeVar); ok {
+						// locate the captured value in the MakeClosure bindings
+						for _, pb := range fn.Blocks {
+							for _, pi := range pb.Instrs {
+								if mc, ok := pi.(*ssa.MakeClosure); ok && mc.Fn == ssa.Value(an) {
+									for i, bv := range mc.Bindings {
+										if i < len(an.FreeVars) && an.FreeVars[i] == fv {
+											if al, ok := bv.(*ssa.Alloc); ok {
+												bad[al] = true
+											}
+										}
+									}
+								}
+							}
+						}
+					}
+				}
+			}
+		}
+	}
+	for _, b := range fn.Blocks {
+		for _, ins := range b.Instrs {
+			if u, ok := ins.(*ssa.UnOp); ok && u.Op == token.MUL {
+				if al, ok := u.X.(*ssa.Alloc); ok && cells[al] && !bad[al] {
+					out[u] = true
+				}
+			}
+		}
+	}
+	return out
+}
+
+// loadsField: v is a load of field idx of one of the root values.
+func loadsField(v ssa.Value, roots rootSet, idx int) bool {
+	u, ok := v.(*ssa.UnOp)
+	if !ok || u.Op != token.MUL {
+		return false
+	}
+	fa, ok := u.X.(*ssa.FieldAddr)
+	return ok && roots[fa.X] && fa.Field == idx
+}
+
+func reaches(from, to *ssa.BasicBlock) bool {
+	seen := map[*ssa.BasicBlock]bool{}
+	work := []*ssa.BasicBlock{from}
+	for len(work) > 0 {
+		b := work[len(work)-1]
+		work = work[:len(work)-1]
+		if b == to {
+			return true
+		}
+		if seen[b] {
+			continue
+		}
+		seen[b] = true
+		work = append(work, b.Succs...)
+	}
+	return false
+}
+
+// C14.bound — on the fixed-length partition every consumption from the underlying reader in
+// the stream's Read takes at most contentLength − offset bytes.
+func c14Bound(e *Env) {
+	const rule = "C14.bound"
+	w, r := e.W, e.R
+	r.Explainf("C14.bound: zone abstract interpretation of bodyStream.Read under the entry assumption contentLength ≥ 0 (fixed-length partition; −1 is dispatched to the chunked branch first, −2 is read-until-close and unbounded by design): for every call on the stream's underlying reader — Read(buf), Peek(n), Skip(n) — the analysis must prove len(buf) resp. n ≤ remain, where remain is the SSA value `contentLength − offset` computed from the receiver's fields with no store to either field between its computation and the call. Reading more would take bytes of the next request off the connection.")
+	fi := w.Func("pkg/protocol/http1/ext", "bodyStream", "Read")
+	if fi == nil {
+		r.Anchor(rule, "ext.bodyStream.Read")
+		return
+	}
+	fn := w.SSAFunc(fi)
+	_, st := structOfPtr(fn.Params[0].Type())
+	if st == nil {
+		r.Anchor(rule, "ext.bodyStream (struct)")
+		return
+	}
+	iCL, iOff, iRd := fieldIndex(st, "contentLength"), fieldIndex(st, "offset"), fieldIndex(st, "reader")
+	if iCL < 0 || iOff < 0 || iRd < 0 {
+		r.Anchor(rule, "bodyStream.contentLength/offset/reader")
+		return
+	}
+	recv := paramAliases(fn, fn.Params[0])
+	fname := w.FuncName(fi.Obj)
+	// remain values
+	var remains []*ssa.BinOp
+	var fieldStores []*ssa.Store
+	for _, b := range fn.Blocks {
+		for _, ins := range b.Instrs {
+			if bo, ok := ins.(*ssa.BinOp); ok && bo.Op == token.SUB && loadsField(bo.X, recv, iCL) && loadsField(bo.Y, recv, iOff) {
+				remains = append(remains, bo)
+			}
+			if s, ok := ins.(*ssa.Store); ok {
+				if fa, ok := s.Addr.(*ssa.FieldAddr); ok && recv[fa.X] && (fa.Field == iCL || fa.Field == iOff) {
+					fieldStores = append(fieldStores, s)
+				}
+			}
+		}
+	}
+	fromReader := func(v ssa.Value) bool {
+		for i := 0; i < 4; i++ {
+			switch x := v.(type) {
+			case *ssa.TypeAssert:
+				v = x.X
+				continue
+			case *ssa.Extract:
+				v = x.Tuple
+				continue
+			case *ssa.ChangeInterface:
+				v = x.X
+				continue
+			case *ssa.MakeInterface:
+				v = x.X
+				continue
+			}
+			break
+		}
+		return loadsField(v, recv, iRd)
+	}
+	z := getZone(w)
+	n, reached := 0, 0
+	count := map[string]int{}
+	opts := zone.Options{
+		Entry: func(a *zone.Analyzer, d *zone.DBM) {
+			// contentLength >= 0 at entry: constrain the access-path variable of the field load
+			for _, b := range fn.Blocks {
+				for _, ins := range b.Instrs {
+					if u, ok := ins.(*ssa.UnOp); ok && loadsField(u, recv, iCL) {
+						zone.AssumeGE(d, a.IntTerm(u), 0)
+						return
+					}
+				}
+			}
+		},
+		Custom: func(a *zone.Analyzer, d *zone.DBM, ins ssa.Instruction) {
+			call, ok := ins.(*ssa.Call)
+			if !ok || !call.Call.IsInvoke() || !fromReader(call.Call.Value) {
+				return
+			}
+			m := call.Call.Method.Name()
+			if m != "Read" && m != "Peek" && m != "Skip" {
+				return
+			}
+			if d == nil {
+				return // chunked partition: unreachable under the entry assumption
+			}
+			n++
+			count[m]++
+			key := fmt.Sprintf("%s:reader.%s#%d", fname, m, count[m])
+			pos := w.Pos(call.Pos())
+			desc := "consumption from the underlying reader is bounded by contentLength − offset"
+			arg := call.Call.Args[0]
+			proven := false
+			why := "no value `contentLength − offset` is computed before this call"
+			for _, rem := range remains {
+				if !rem.Block().Dominates(call.Block()) {
+					continue
+				}
+				stale := false
+				for _, s := range fieldStores {
+					if (rem.Block().Dominates(s.Block()) || rem.Block() == s.Block()) && reaches(s.Block(), call.Block()) && s.Block() != call.Block() {
+						if s.Block() == rem.Block() && !after(s, rem) {
+							continue
+						}
+						stale = true
+					}
+					if s.Block() == call.Block() && before(s, call) && (rem.Block() != call.Block() || after(s, rem)) {
+						stale = true
+					}
+				}
+				if stale {
+					why = "offset/contentLength is stored between the computation of the remainder and the call"
+					continue
+				}
+				reached++
+				var ub int64
+				if m == "Read" {
+					ub = zone.Tub(d, a.LenTerm(arg), a.IntTerm(rem))
+				} else {
+					ub = zone.Tub(d, a.IntTerm(arg), a.IntTerm(rem))
+				}
+				if ub <= 0 {
+					proven = true
+				} else {
+					why = fmt.Sprintf("the analysis cannot bound the %s argument by the remaining body length (upper bound of the difference: %s): with a read buffer larger than the remainder the call consumes bytes that belong to the next request on the connection", m, boundStr(ub))
+				}
+			}
+			r.Check(proven, rule, key, pos, desc, why)
+		},
+	}
+	z.prog.Analyze(fn, opts)
+	r.Unit("%s: %s — %d `contentLength − offset` values, %d stores to those fields, %d reader consumptions on the fixed-length partition", rule, fname, len(remains), len(fieldStores), n)
+	r.Floor(rule, n, 3, "reader consumptions (Read/Peek/Skip) on the fixed-length path of "+fname)
+	r.Assume("C14.bound is decided for the fixed-length partition contentLength ≥ 0 only")
+}
+
+func boundStr(b int64) string {
+	if b >= zone.INF {
+		return "unbounded"
+	}
+	return fmt.Sprint(b)
+}
+
+func before(a, b ssa.Instruction) bool {
+	for _, ins := range a.Block().Instrs {
+		if ins == a {
+			return true
+		}
+		if ins == b {
+			return false
+		}
+	}
+	return false
+}
+func after(a, b ssa.Instruction) bool { return a.Block() == b.Block() && before(b, a) && a != b }
